@@ -68,10 +68,10 @@ Definition c11_check (c : c11case) : bool :=
      end)
   | CFilePanic input ff => is_panic (parse_file input ff)
   | CHuman input context ds obs =>
-    match human_bytes input context (map (fun d => mkDiag (fst d) (snd d)) ds) with
+    match human_bytes input context (map (fun d => mkDiag (fst d) (snd d) []) ds) with
     | Ok hs => list_eqb hres_eqb hs obs
     | _ => false
     end
   | CHumanPanic input context ds =>
-    is_panic (human_bytes input context (map (fun d => mkDiag (fst d) (snd d)) ds))
+    is_panic (human_bytes input context (map (fun d => mkDiag (fst d) (snd d) []) ds))
   end.
